@@ -302,6 +302,7 @@ for _f in _ka[1:4]:
 add(Gram("ka", Level(_ka), short_flags="vrf", short_args="wo",
          note="adjacent option-struct `--rect --width W [--fill]` (W has a user completer) between a switch and an argument (names-only Level: used by C14)"))
 
+add(Gram("a5", None, short_flags="bcs", names=("bcs", ["beta", "gamma", "sw"], ["go"]), note="repeated choice between an adjacent command `go` (a bare word) and two flags"))
 add(Gram("k5", None, short_flags="rs", short_args="w", names=("rsw", ["rect", "sw", "width"], []), note="switch, then optional adjacent group (flag + argument), then optional positional"))
 
 _hd_secret = Named("switch", "s", ["secret"])
